@@ -1,29 +1,20 @@
 from numpy import pi, sqrt, e as E
+from numpy import dot
 from numpy import tanh
 
 
-def vf(t,y,dy,g,k,w,c,g_v1,k_v1,w_v1,c_v1,tau,g_v2,k_v2,c_v2,g_v3,k_v3,w_v3,c_v3,tau_v1,weight,weight_v1,weight_v2,weight_v3,weight_v4,weight_v5,weight_v6):
+def vf(t,y,dy,g,k,c,tau,w,u_in0,u_in1,source_idx,weight,target_idx,source_idx_in0,weight_in0,target_idx_in0,weight_in1,target_idx_in1,source_idx_v1,weight_v1):
 
 
-	x_v1 = y[0]
-	x_v2 = y[1]
-	x = y[2]
-	x_v4 = y[3]
-	x_v5 = y[4]
-	x_v3 = y[5]
-	u = weight*x
-	u_v1 = weight_v1*x_v1
-	u_v2 = weight_v2*x_v2
-	w_v2 = weight_v3*x_v2
-	u_v3 = weight_v4*x_v3
-	u_v4 = weight_v5*x_v4
-	u_v5 = weight_v6*x_v5
+	x = y[0:4]
+	x_in1 = y[4:6]
+	w[target_idx] = weight*x[source_idx]
+	u_in0[target_idx_in0] = dot(weight_in0, x[source_idx_in0])
+	u_in1[target_idx_in1] = dot(weight_in1, x_in1)
+	u = u_in0 + u_in1
+	u_v1 = dot(weight_v1, x[source_idx_v1])
 	
-	dy[0] = c*w + g*tanh(u) - k*x_v1
-	dy[1] = c_v1*w_v1 + g_v1*tanh(u_v1) - k_v1*x_v2
-	dy[2] = (u_v2 - x)/tau
-	dy[3] = c_v2*w_v2 + g_v2*tanh(u_v3) - k_v2*x_v4
-	dy[4] = c_v3*w_v3 + g_v3*tanh(u_v4) - k_v3*x_v5
-	dy[5] = (u_v5 - x_v3)/tau_v1
+	dy[0:4] = c*w + g*tanh(u) - k*x
+	dy[4:6] = (u_v1 - x_in1)/tau
 
 	return dy
